@@ -191,13 +191,15 @@ def replay_chunk(chunk):
     """chunk: list of groups (each a list of records with one key).  -> dict of counters and findings"""
     mode = _W["mode"]
     res = {"n": 0, "runs": 0, "dev": 0, "mismatch": [], "viol": [], "tie": 0, "tie_real": 0, "nontrivial": [],
-           "colpage": 0, "scalecmp": 0, "samples": [], "pred_evals": 0}
+           "colpage": 0, "scalecmp": 0, "samples": [], "pred_evals": 0, "sim_tie": 0}
     for rs in chunk:
         rec = rs[0]
         outs = {(R.model_out(r), R.model_groups(r)) for r in rs}
         outs_c = {(R.model_out(r, True), R.model_groups(r)) for r in rs}
         tie = len(outs) > 1
         res["tie"] += tie
+        # -simulate follows one random choice at every id() tie: the outcome set of such an arrangement is incomplete
+        sampled = rec.get("_sim") and any(r.get("tie") for r in rs)
         res["n"] += 1
         first = None
         per_scale = {}
@@ -252,6 +254,8 @@ def replay_chunk(chunk):
                         for key, msg in fails:
                             res["viol"].append((key, msg, dict(short(rec), scale=str(scale), rev=rev,
                                                                observed=repr(got)[:1500], model=repr(sorted(outs)[0])[:1500])))
+                    elif sampled:
+                        res["sim_tie"] += 1
                     else:
                         res["mismatch"].append(dict(short(rec), scale=str(scale), rev=rev, observed=repr(got)[:800],
                                                     model=repr(sorted(outs)[0])[:800]))
@@ -261,7 +265,7 @@ def replay_chunk(chunk):
                     raise MachineryError("harness predicate %s fails on a case where code == model: %s / %r"
                                          % (fails[0][0], fails[0][1], short(rec)))
         # scale invariance on the real code: same outcome at every scale (compared where no id() tie is involved)
-        if mode == "C09" and not tie:
+        if mode == "C09" and not tie and not sampled:
             base = per_scale.get(1, [(None, None)])[0][1]
             for scale, lst in per_scale.items():
                 for rev, got in lst:
@@ -308,21 +312,25 @@ def replay_pdf_chunk(job):
             got = (R.project_pdf_page(pg, rec, scale), R.proj_groups(pg, scale))
             res["pages"] += 1
             per_scale.setdefault(i, {})[scale] = got
+            sampled = rec.get("_sim") and any(r.get("tie") for r in rs)
             if got in outs or got in outs_c:
                 if got not in outs:
                     res["dev"] += 1
+            elif sampled:
+                pass
             else:
                 res["mismatch"].append(dict(short(rec), scale=str(scale), route="pdf", observed=repr(got)[:800],
                                             model=repr(sorted(outs)[0])[:800]))
             if texts is not None:
                 res["text"] += 1
                 want = {R.expected_text(o[0], rec) for o in outs | outs_c}
-                if texts[i] + "\f" not in want:
+                if texts[i] + "\f" not in want and not sampled:
                     res["viol"].append(("text-concat", "extract_text of the page is not the concatenation of its boxes' text",
                                         dict(short(rec), scale=str(scale), observed=texts[i][:300], expected=sorted(want)[0][:300])))
     if mode == "C09" and len(scales) > 1:
         for i, d in per_scale.items():
-            if len({(R.model_out(r), R.model_groups(r)) for r in groups[i]}) > 1:
+            if len({(R.model_out(r), R.model_groups(r)) for r in groups[i]}) > 1 or \
+                    (groups[i][0].get("_sim") and any(r.get("tie") for r in groups[i])):
                 continue
             vals = list(d.values())
             res["scalecmp"] += len(vals) - 1
@@ -345,6 +353,8 @@ def direction_a(ck, mode, invariants, dev, pdf_every, pdf_scales, pdf_text_every
     for name, emit in outs:
         gs = load_groups(emit)
         os.remove(emit)
+        for rs in gs:
+            rs[0]["_sim"] = name == "simulate"
         if not gs:
             raise MachineryError("family %s: TLC printed no completed analysis" % name)
         per_family[name] = len(gs)
@@ -352,7 +362,7 @@ def direction_a(ck, mode, invariants, dev, pdf_every, pdf_scales, pdf_text_every
     ck.extra["arrangements_per_family"] = per_family
     # deduplicate arrangements reached in several families
     seen = {}
-    for rs in allgroups:
+    for rs in sorted(allgroups, key=lambda rs: rs[0]["_sim"]):      # an exhaustively explored copy wins
         seen.setdefault(R.rec_key(rs[0]), rs)
     allgroups = list(seen.values())
     nproc = min(16, os.cpu_count() or 4)
@@ -369,7 +379,7 @@ def direction_a(ck, mode, invariants, dev, pdf_every, pdf_scales, pdf_text_every
     both = pool_map(_replay_any, [("d", c) for c in chunks if c] + [("p", j) for j in jobs], mode, dev)
     res1 = [r for k, r in both if k == "d"]
     res2 = [r for k, r in both if k == "p"]
-    tot = {"n": 0, "runs": 0, "dev": 0, "tie": 0, "tie_real": 0, "colpage": 0, "scalecmp": 0, "pred_evals": 0}
+    tot = {"n": 0, "runs": 0, "dev": 0, "tie": 0, "tie_real": 0, "colpage": 0, "scalecmp": 0, "pred_evals": 0, "sim_tie": 0}
     mismatches = []
     perkey = {}
 
@@ -408,6 +418,7 @@ def direction_a(ck, mode, invariants, dev, pdf_every, pdf_scales, pdf_text_every
     ck.extra["tiebreak_dependent_arrangements"] = tot["tie"]
     ck.extra["tiebreak_dependence_realised_with_reversed_ids"] = tot["tie_real"]
     ck.extra["column_pages"] = tot["colpage"]
+    ck.extra["simulated_runs_on_another_tiebreak_path"] = tot["sim_tie"]
     ck.extra["scale_comparisons"] = tot["scalecmp"] + pdf["scalecmp"]
     ck.extra["model_code_drift"] = len(mismatches)
     ck.extra["replay_wall_s"] = round(time.time() - t0, 1)
